@@ -121,6 +121,24 @@ def run(ctx, report: Report) -> None:
                                          f'`from {n.module} import {a.name}` runs while {mn} is imported; when bs4 is '
                                          f'imported first, {n.module} is only partially initialised and {a.name} is not '
                                          f'bound yet (ImportError - or a silently different fallback if it is caught)')
+                if isinstance(n, ast.Call) and isinstance(n.func, ast.Name) and n.func.id in ('getattr', 'hasattr', 'vars', 'dir') and n.args:
+                    # reflective access to the bs4 module object: what it finds depends on how far bs4 has been initialised
+                    tgt = n.args[0]
+                    chain = unparse(tgt)
+                    root_name = chain.split('.')[0]
+                    if root_name in aliases and (isinstance(tgt, ast.Name) or facts.path_of(aliases[root_name] + chain[len(root_name):]) is not None):
+                        modpath = aliases[root_name] + chain[len(root_name):]
+                        nm = ctx.consts.folder.try_ev(mn, n.args[1], default=None) if len(n.args) > 1 else None
+                        s_ = safe.get(modpath)
+                        ok = isinstance(nm, str) and (s_ == 'complete' or (isinstance(s_, set) and nm in s_))
+                        n_sites += 1
+                        r1.instance({'owner': owner, 'reflective_access': unparse(n)[:60], 'safe': ok}, key=f'{owner}|{unparse(n)[:60]}')
+                        r1.obligation(ok)
+                        if not ok:
+                            r1.violation(f'{owner} {unparse(n)[:50]}', mod.where(n),
+                                         f'`{unparse(n)[:70]}` is evaluated while the package is imported (in {owner}); when bs4 is imported '
+                                         f'first, {modpath} is only partially initialised: the lookup fails or - with a default - silently '
+                                         f'finds nothing, so the package behaves differently depending on which of the two was imported first')
                 if isinstance(n, ast.Attribute) and isinstance(n.ctx, ast.Load):
                     # longest dotted chain rooted at a bs4 alias
                     parts = []
